@@ -112,6 +112,42 @@ def _variants(item, out):
                                         "input": f"{item['u']}:{U.key(m)}",
                                         "what": f"set/dict membership of the {vt} variant of {U.describe(m)} is {ok}",
                                         "item": item, "detail": None})
+        for vt, fn, m2 in E.edited_after_use(m):
+            if not E.fully_specified(m2):
+                continue
+            try:
+                g2 = fn(U.build(m))
+                hf = _h(U.build(m2))
+            except Exception:
+                oc["derivation-raised"] = oc.get("derivation-raised", 0) + 1
+                continue
+            if not E.same_content(g2, m2):
+                oc["derived-content-differs"] = oc.get("derived-content-differs", 0) + 1
+                continue
+            out["evals"] += 1
+            out["distinct"] += 1
+            oc[vt] = oc.get(vt, 0) + 1
+            if _h(g2) != hf:
+                out["viol"].append({"sig": f"C03/{E.SHORT[m.kind]}/{vt}/hash-differs", "input": f"{item['u']}:{U.key(m)}",
+                                    "what": f"{U.describe(m)} hashed, then edited ({vt}): hash {_h(g2)} differs from hash {hf} of a "
+                                            f"freshly built graph with the same content {U.describe(m2)}", "item": item, "detail": None})
+        for vt, fn in E.derived(m):
+            try:
+                g2 = fn(U.build(m))
+            except Exception:
+                oc["derivation-raised"] = oc.get("derivation-raised", 0) + 1
+                continue
+            if not E.same_content(g2, m):
+                oc["derived-content-differs"] = oc.get("derived-content-differs", 0) + 1
+                continue
+            h2 = _h(g2)
+            out["evals"] += 1
+            out["distinct"] += 1
+            oc[vt] = oc.get(vt, 0) + 1
+            if h0 != h2 or isinstance(h0, str):
+                out["viol"].append({"sig": f"C03/{E.SHORT[m.kind]}/{vt}/hash-differs", "input": f"{item['u']}:{U.key(m)}",
+                                    "what": f"hash {h0} of a freshly built {U.describe(m)} differs from hash {h2} of its {vt} "
+                                            f"counterpart (same labelled content)", "item": item, "detail": None})
     return out
 
 
